@@ -25,6 +25,8 @@ pairs `<present 0|1> <value>`.
                                                            ordinary OnPodUpdate (old and new object bound): filed + assigned
   quotadel <name>                                          OnQuotaDelete of a group without child groups
   podflip <id>                                             OnPodUpdate of a held pod: only the preemptible label flips
+  podrelabel <id> <quota> <bound 0|1>                      OnPodUpdate whose new object names another group (different-quota
+                                                           branch); <bound> = the new object carries a node name
   gate <0|1>                                               feature gate ElasticQuotaGuaranteeUsage (default 0): quota objects
                                                            read from now on yield allow-lent = false (declaredLent)
 Output: `v <status code>` after `att`; after every other op one line per group sorted by name:
@@ -197,6 +199,19 @@ def stepLine (s : DState) (line : String) : DState :=
         else after s (podFlip s.st i)
       | none => bad s
     | none => bad s
+  | ["podrelabel", i, l, b] =>
+    match nat? i, nat? l, nat? b with
+    | some i, some l, some b =>
+      match findP s.st.pods i with
+      | some p =>
+        -- outside the model: a pod with a second PodInfo, a pod waiting for the tick, a new label whose association is
+        -- the old one (same-quota branch) or is not registered
+        let p' : Pod := { p with label := l }
+        if b > 1 || p.ghost || (p.inCache && homeOf s.st p ≠ p.quota) || homeOf s.st p = homeOf s.st p'
+           || (findQ s.st.quotas (homeOf s.st p')).isNone then bad s
+        else after s (podRelabel s.st i l (b = 1))
+      | none => bad s
+    | _, _, _ => bad s
   | ["quotadel", n] =>
     match nat? n with
     | some n =>
